@@ -24,6 +24,8 @@ pub enum Op {
     AddRule(&'static str, &'static str),
     Import(&'static str, &'static str, bool, &'static str), // to, from, rules-type?, pattern
     ImportReexport(&'static str, &'static str),
+    /// import everything, re-export only the names matching the given pattern
+    ImportReexportSel(&'static str, &'static str, &'static str),
 }
 
 #[derive(Clone)]
@@ -32,6 +34,7 @@ pub struct Sys {
     modules: Vec<&'static str>,
     rules: Vec<&'static str>,
     specific_r1: bool,
+    selective_reexport: bool,
     pub undefined: u64,
 }
 
@@ -48,7 +51,46 @@ fn pat(p: &str, name: &str) -> bool {
 
 impl Sys {
     pub fn new(modules: &[&'static str], rules: &[&'static str], specific_r1: bool) -> Self {
-        Sys { mm: ModuleManager::new(), modules: modules.to_vec(), rules: rules.to_vec(), specific_r1, undefined: 0 }
+        Sys { mm: ModuleManager::new(), modules: modules.to_vec(), rules: rules.to_vec(), specific_r1, selective_reexport: false, undefined: 0 }
+    }
+    pub fn with_selective_reexport(mut self) -> Self {
+        self.selective_reexport = true;
+        self
+    }
+    /// Does module `m` export rule `r`? Some(true): it owns and exports it, or one of its import declarations really
+    /// brings `r` (pattern matches, the source exports it) and that declaration's re-export patterns match `r`.
+    /// Some(false): it does not own-export it and no re-export pattern of any of its declarations matches `r`.
+    /// None (undefined): a re-export pattern matches `r` but the declaration carrying it does not bring `r` (the code
+    /// re-exports by pattern alone; the statement does not say).
+    fn exports3(&self, m: &str, r: &str, existing: &BTreeSet<String>, depth: usize) -> Option<bool> {
+        if depth > self.modules.len() + 1 {
+            return None;
+        }
+        if self.exports_owned(m, r) {
+            return Some(true);
+        }
+        let md = self.mm.get_module(m).unwrap();
+        let mut undef = false;
+        for d in md.get_imports() {
+            let Some(re) = &d.re_export else { continue };
+            if !re.patterns.iter().any(|p| pat(p, r)) {
+                continue;
+            }
+            let rules_kind = matches!(d.import_type, ImportType::AllRules | ImportType::Rules | ImportType::All);
+            if rules_kind && existing.contains(&d.from_module) && pat(&d.pattern, r) {
+                match self.exports3(&d.from_module, r, existing, depth + 1) {
+                    Some(true) => return Some(true),
+                    _ => undef = true,
+                }
+            } else {
+                undef = true;
+            }
+        }
+        if undef {
+            None
+        } else {
+            Some(false)
+        }
     }
     /// canonical dump of everything observable (this *is* the whole state: all fields have getters)
     fn dump(&self) -> String {
@@ -138,14 +180,11 @@ impl Sys {
                     if !pat(&d.pattern, r) {
                         continue;
                     }
-                    if self.exports_owned(&d.from_module, r) {
-                        vis = true;
-                    }
-                    // re-export: the source re-exports names matching one of its own import declarations'
-                    // re-export patterns — which names that covers is not fixed by the statement
-                    let src = self.mm.get_module(&d.from_module).unwrap();
-                    if src.get_imports().iter().any(|i| i.re_export.as_ref().is_some_and(|re| re.patterns.iter().any(|p| pat(p, r)))) {
-                        undef = true;
+                    match self.exports3(&d.from_module, r, &existing, 0) {
+                        Some(true) => vis = true,
+                        Some(false) => {}
+                        // a re-export pattern of the source matches a name its declaration does not bring
+                        None => undef = true,
                     }
                 }
                 if vis {
@@ -232,6 +271,9 @@ impl System for Sys {
                 }
                 v.push(Op::Import(to, from, false, "*"));
                 v.push(Op::ImportReexport(to, from));
+                if self.selective_reexport {
+                    v.push(Op::ImportReexportSel(to, from, self.rules[0]));
+                }
             }
         }
         v
@@ -261,6 +303,7 @@ impl System for Sys {
             },
             Op::Import(to, from, rules, p) => self.mm.import_from(to, from, if *rules { ImportType::AllRules } else { ImportType::AllTemplates }, *p).map_err(|e| format!("{:?}", e)),
             Op::ImportReexport(to, from) => self.mm.import_from_with_reexport(to, from, ImportType::AllRules, "*", Some(ReExport { patterns: vec!["*".to_string()], transitive: true })).map_err(|e| format!("{:?}", e)),
+            Op::ImportReexportSel(to, from, p) => self.mm.import_from_with_reexport(to, from, ImportType::AllRules, "*", Some(ReExport { patterns: vec![p.to_string()], transitive: true })).map_err(|e| format!("{:?}", e)),
         };
         let after = self.dump();
         // I3: a refused operation changes nothing
@@ -272,9 +315,9 @@ impl System for Sys {
             Op::Create(m) => !existing.contains(*m),
             Op::Delete(m) => *m != "MAIN" && existing.contains(*m),
             Op::SetExports(m, _) | Op::AddRule(m, _) => existing.contains(*m),
-            Op::Import(to, from, _, _) | Op::ImportReexport(to, from) => existing.contains(*to) && existing.contains(*from) && to != from && !Sys::reaches(&decl_live, from, to),
+            Op::Import(to, from, _, _) | Op::ImportReexport(to, from) | Op::ImportReexportSel(to, from, _) => existing.contains(*to) && existing.contains(*from) && to != from && !Sys::reaches(&decl_live, from, to),
         };
-        if let (Op::Import(to, from, _, _) | Op::ImportReexport(to, from), Ok(())) = (op, &res) {
+        if let (Op::Import(to, from, _, _) | Op::ImportReexport(to, from) | Op::ImportReexportSel(to, from, _), Ok(())) = (op, &res) {
             if existing.contains(*to) && existing.contains(*from) && (to == from || Sys::reaches(&decl_live, from, to)) {
                 let tags: Vec<&str> = vec![];
                 return Err(Mismatch::tagged("cycle_closing_import_accepted", format!("{:?} accepted although {} already reaches {} through declared imports {:?}", op, from, to, decl_live), &tags));
@@ -294,7 +337,7 @@ impl System for Sys {
             Op::SetExports(..) => "set_exports",
             Op::AddRule(..) => "add_rule",
             Op::Import(..) => "import",
-            Op::ImportReexport(..) => "import_reexport",
+            Op::ImportReexport(..) | Op::ImportReexportSel(..) => "import_reexport",
         }
         .to_string()
     }
@@ -313,8 +356,8 @@ type Plan = (&'static str, Vec<&'static str>, Vec<&'static str>, bool, usize);
 
 pub fn run(opts: &Opts) -> Vec<Report> {
     let plan: Vec<Plan> = match opts.tier {
-        Tier::Quick => vec![("modules_3m_2r_len6", vec!["MAIN", "A", "B"], vec!["r1", "q"], false, 6), ("modules_4m_3r_len5", vec!["MAIN", "A", "B", "C"], vec!["r1", "r2", "q"], true, 5)],
-        Tier::Thorough => vec![("modules_3m_2r_len7", vec!["MAIN", "A", "B"], vec!["r1", "q"], false, 7), ("modules_4m_3r_len5", vec!["MAIN", "A", "B", "C"], vec!["r1", "r2", "q"], true, 5)],
+        Tier::Quick => vec![("modules_3m_2r_len6", vec!["MAIN", "A", "B"], vec!["r1", "q"], false, 6), ("modules_selective_reexport_3m_2r_len6", vec!["MAIN", "A", "B"], vec!["r1", "q"], false, 6), ("modules_4m_3r_len5", vec!["MAIN", "A", "B", "C"], vec!["r1", "r2", "q"], true, 5)],
+        Tier::Thorough => vec![("modules_3m_2r_len7", vec!["MAIN", "A", "B"], vec!["r1", "q"], false, 7), ("modules_selective_reexport_3m_2r_len7", vec!["MAIN", "A", "B"], vec!["r1", "q"], false, 7), ("modules_4m_3r_len5", vec!["MAIN", "A", "B", "C"], vec!["r1", "r2", "q"], true, 5)],
     };
     let mut out = vec![];
     for (name, mods, rules, sr1, depth) in plan {
@@ -322,12 +365,13 @@ pub fn run(opts: &Opts) -> Vec<Report> {
             continue;
         }
         let mut cfg = Config::new(name, depth);
-        cfg.ctx = json!({"modules": mods, "rules": rules, "specific_r1": sr1});
+        let sel = name.contains("selective_reexport");
+        cfg.ctx = json!({"modules": mods, "rules": rules, "specific_r1": sr1, "selective_reexport": sel});
         cfg.expected_letters = ["create", "delete", "set_exports", "add_rule", "import", "import_reexport"].iter().map(|s| s.to_string()).collect();
         let (m2, r2) = (mods.clone(), rules.clone());
-        let mut r = explore::closure(&move || Sys::new(&m2, &r2, sr1), &cfg);
-        r.bound = format!("breadth-first, exact de-duplication, every state reachable in <= {} operations x every letter; modules {:?}, rules {:?}", depth, mods, rules);
-        r.assumptions.push("visibility that depends on a re-export declaration is left undefined (the statement does not say which names a re-export covers)".into());
+        let mut r = explore::closure(&move || if sel { Sys::new(&m2, &r2, sr1).with_selective_reexport() } else { Sys::new(&m2, &r2, sr1) }, &cfg);
+        r.bound = format!("breadth-first, exact de-duplication, every state reachable in <= {} operations x every letter; modules {:?}, rules {:?}{}", depth, mods, rules, if sel { "; re-exporting imports with pattern * and with a selective pattern" } else { "" });
+        r.assumptions.push("a module exports a name it re-exports when the re-exporting declaration really brings the name (pattern matches, source exports it); a re-export pattern matching a name the declaration does not bring is left undefined (the code re-exports by pattern alone; the statement does not say)".into());
         out.push(r);
     }
     out
@@ -343,5 +387,6 @@ pub fn replay(case: &serde_json::Value) -> crate::props::ReplayResult {
     let (mods, rules) = (sv("modules"), sv("rules"));
     let sr1 = case["ctx"]["specific_r1"].as_bool().unwrap_or(false);
     let ch = crate::props::choices_of(case);
-    crate::props::conv(explore::replay(&move || Sys::new(&mods, &rules, sr1), &ch))
+    let sel = case["ctx"]["selective_reexport"].as_bool().unwrap_or(false);
+    crate::props::conv(explore::replay(&move || if sel { Sys::new(&mods, &rules, sr1).with_selective_reexport() } else { Sys::new(&mods, &rules, sr1) }, &ch))
 }
